@@ -95,4 +95,3 @@ func c07PubKeyDER() []byte {
 	}
 	return b
 }
-
